@@ -18,7 +18,7 @@ import traceback
 VERIF = os.path.dirname(os.path.dirname(os.path.abspath(__file__)))
 COQ = os.path.join(VERIF, "coq")
 WORK = os.path.join(VERIF, ".work")
-REPO = "/repo"
+REPO = os.environ.get("VERIF_REPO", "/repo")  # VERIF_REPO: development only (scratch worktrees)
 PY = "/venv/bin/python"
 LOGICAL = "CB"
 
@@ -58,6 +58,7 @@ class Ctx:
         self.t0 = time.time()
         self.log_lines = []
         self.checker_cmds = []
+        self.prebuilt = []
 
     @property
     def quick(self):
@@ -104,18 +105,21 @@ def _lock():
     return f
 
 
-def ensure_prebuilt(ctx=None):
-    """The Gen-independent part is built by setup.sh; make is a no-op when it is up to date."""
+def ensure_prebuilt(files):
+    """Compile (in the given dependency order) the Gen-independent files a property needs, if their
+    .vo is missing or stale.  setup.sh builds all of them with make; this is a no-op afterwards."""
     lock = _lock()
     try:
-        mk = os.path.join(COQ, "Makefile")
-        if not os.path.exists(mk):
-            r = subprocess.run([PY, os.path.join(VERIF, "harness", "setup_build.py"), "--no-gate"],
-                               capture_output=True, text=True, timeout=7200)
-        else:
-            r = subprocess.run(["make", "-C", COQ, "-j16"], capture_output=True, text=True, timeout=7200)
-        if r.returncode != 0:
-            return False, (r.stdout + r.stderr)[-4000:]
+        rebuilt = False
+        for rel in files:
+            v = os.path.join(COQ, rel)
+            vo = v[:-2] + ".vo"
+            stale = rebuilt or not os.path.exists(vo) or os.path.getmtime(vo) < os.path.getmtime(v)
+            if stale:
+                rc, so, se, cmd = coqc(rel, timeout=3000)
+                if rc != 0:
+                    return False, "prebuilt file %s does not compile:\n%s" % (rel, se[-3000:])
+                rebuilt = True
         return True, ""
     finally:
         lock.close()
@@ -207,7 +211,7 @@ def build_obligations(ctx, files, prop_files, timeout=1500):
     property files.  All of it is a full coqc (.vo) compilation."""
     t0 = time.time()
     res = ProofResult()
-    ok, msg = ensure_prebuilt(ctx)
+    ok, msg = ensure_prebuilt(list(ctx.prebuilt))
     if not ok:
         res.ok = False
         res.broken = dict(file="(prebuilt libraries)", line=None, theorem=None, message=msg)
@@ -348,6 +352,7 @@ class CorrResult:
 class Prop:
     pid = "C00"
     title = ""
+    prebuilt = []  # Gen-independent files (dependency order) this property needs, e.g. "Base/Hex.v"
     gen_dependent_files = []  # compiled by the check before the property files, in order
     property_files = []
     trusted = []
@@ -375,6 +380,7 @@ class Prop:
 def run_check(prop, tier, seed):
     setup_env()
     ctx = Ctx(prop.pid, tier, seed)
+    ctx.prebuilt = list(prop.prebuilt)
     findings = [f for f in load_findings() if f["property"] == prop.pid]
     open_sigs = {f["signature"]: f for f in findings if f.get("status") == "open"}
     broken = []  # descriptions of broken obligations / correspondences
